@@ -38,6 +38,27 @@ theorem exec_append (sys : Sys Op St Tgt Obs) (h₁ h₂ : List Op) (s : St) :
 
 end Sys
 
+/-- A session system whose operations are issued against a *version* of the program text, which may change
+    between operations (a source file that is edited and loaded again in the same session). -/
+structure VSys (Ver Op St Tgt Obs : Type) where
+  init : St
+  step : Ver → Op → St → St
+  observe : Ver → St → Tgt → Obs
+
+namespace VSys
+variable {Ver Op St Tgt Obs : Type}
+
+def exec (sys : VSys Ver Op St Tgt Obs) : List (Ver × Op) → St → St
+  | [], s => s
+  | (v, o) :: os, s => exec sys os (sys.step v o s)
+
+/-- the observation of every target of every version, after any history of operations on any earlier
+    versions, is its observation in a fresh session -/
+def HistoryFree (sys : VSys Ver Op St Tgt Obs) : Prop :=
+  ∀ (h : List (Ver × Op)) (v : Ver) (d : Tgt), sys.observe v (sys.exec h sys.init) d = sys.observe v sys.init d
+
+end VSys
+
 /-- renumbering generated names by a shift does not change how they compare -/
 def ShiftInv (lt : Nat → Nat → Bool) : Prop := ∀ b i j, lt (b + i) (b + j) = lt i j
 
